@@ -376,6 +376,63 @@ func scenLimiterRejection(start int64) *scenario {
 	return s
 }
 
+// individual-limit rejection: a delegation that would lift a validator above the individual power share is
+// rejected; a small delegation to the same validator later in the same block must still be accepted (the
+// rejected one may not leave a trace in the per-block limiter), also when the rejected one is repeated.
+func scenIndividualLimit(start int64) *scenario {
+	s := &scenario{name: "individual-limit-rejection", start: start}
+	s.step = func(sc *scenCtx, rel int64) {
+		if rel < 0 || rel > 6 || rel%2 == 1 {
+			return
+		}
+		big1, small1 := reservedKey(sc.hr, 3), reservedKey(sc.hr, 4)
+		if big1 == nil || small1 == nil {
+			return
+		}
+		P := sc.pre.Params
+		limit := P.MaxIndividualStakeRatio
+		ranked := rankDelegatees(sc.pre, &P)
+		if len(ranked) < 3 {
+			return
+		}
+		base := int64(0)
+		for i, d := range ranked {
+			if int64(i) < P.MaxValidatorCnt {
+				base += d.Total
+			}
+		}
+		md := new(big.Int).Div(bigDec(P.MinDelegatorStake), big1e18).Int64()
+		small := md + 1
+		// the smallest validator that stays below the limit with the small delegation
+		var target *MDeleg
+		for i := len(ranked) - 1; i >= 0; i-- {
+			d := ranked[i]
+			if int64(i) < P.MaxValidatorCnt && (d.Total+small)*100/(base+small) <= limit && (d.Total+2*small)*100/(base+2*small) <= limit {
+				target = d
+				break
+			}
+		}
+		if target == nil || base <= 0 {
+			return
+		}
+		huge := base // (total+base)*100/(2*base) >= 50
+		if (target.Total+huge)*100/(base+huge) <= limit {
+			return
+		}
+		to := addrBytes(target.Addr)
+		f := sc.add(big1, rctypes.TRX_STAKING, to, e18(huge), nil, "delegation-above-individual-limit", nil)
+		f.Intend = false
+		sc.add(small1, rctypes.TRX_STAKING, to, e18(small), nil, "small-delegation-after-individual-limit-rejection", nil)
+		if rel >= 2 {
+			f2 := sc.add(big1, rctypes.TRX_STAKING, to, e18(huge+1), nil, "delegation-above-individual-limit-again", nil)
+			f2.Intend = false
+			sc.add(small1, rctypes.TRX_STAKING, to, e18(small), nil, "second-small-delegation", nil)
+		}
+		sc.hr.C.Count("scenario.individual-limit-rejection", 1)
+	}
+	return s
+}
+
 // a single-field governance change (proposed, voted by everybody, applied) in the middle of a history
 func scenParamChange(start int64, field string) *scenario {
 	s := &scenario{name: "param-change:" + field, start: start, state: map[string]interface{}{}}
